@@ -8,7 +8,7 @@ TRUSTED_BASE = [
     "Go compiler, runtime and standard library; the CPU",
 ]
 
-Q4 = ["default", "purego"]
+Q4 = ["default", "purego", "force32bit"]
 T4 = ["default", "noavx2", "purego", "force32bit"]
 
 STROBE_THMS = ["Voi.Props.StrobeInv." + n for n in """permute_size access_in_range runF_ok duplexByte_ok duplexLoop_ok duplex_ok
@@ -43,6 +43,11 @@ refine_run put_evicts_lru put_no_evict put_hit Spec.items_run Spec.get_returns_p
 list_eq_stack""".split()]
 LIN_THMS = ["Voi.Props.LinearizeSound." + n for n in "search_sound search_complete linearizable_iff".split()]
 
+TOTAL_THMS = ["Voi.Props.TotalInv." + n for n in """recvDecode_len recvDecode_err recvDecode_cases recvDecode_ok recvDecode_no_panic newDecode_len newDecode_cases newDecode_err newDecode_no_panic ofOption_no_panic ofOption_err ceySetBytes_len ceySetBytes_err ceySetBytes_iff ceyUnmarshal_len ceyUnmarshal_err ceyUnmarshal_ok ceyNew_len epUnmarshal_len epUnmarshal_err epSetCompressed_len epSetCompressed_err epSetMontgomery_len epSetMontgomery_err epSetMontgomery_sign crSetBytes_len crSetBytes_err crUnmarshal_len crUnmarshal_err rpUnmarshal_len rpUnmarshal_err rpSetCompressed_len rpSetCompressed_err rpSetUniform_len rpSetUniform_err rpSetUniform_iff mpSetBytes_len mpSetBytes_err mpSetBytes_iff scSetModOrder_len scSetModOrder_err scSetModOrder_iff scSetWide_len scSetWide_err scSetWide_iff scSetCanonical_len scSetCanonical_err scSetCanonical_iff scSetBits_len scSetBits_err scSetBits_iff scUnmarshal_len scUnmarshal_err scNewModOrder_len scNewWide_len scNewCanonical_len scNewBits_len scMinimal_len scToBytes_len scToBytes_ok scNaf_panic scRadix2w_panic scRadixHint_panic msmEd_panic msmEdx_panic msmRist_panic msmRistx_panic edMode_default edVerifyWithOptions_panic edVerify_panic edVerifyWithOptions_total edVerify_sig_len edVerifyExpandedWithOptions_panic edVerifyExpanded_no_panic edBatchEntry_panic edBatchEntry_total verify_pk_len edBatchEntry_pk_len cacheVerifyWithOptions_panic cacheVerifyWithOptions_pk_len cacheVerify_no_panic edNewExpanded_len edNewKey_panic edSign_panic edPkSign_panic edPkSign_err vrfProve_len vrfProve_panic vrfProveRnd_len vrfProveRnd_entropy vrfProveRnd_no_panic vrfVerify_total vrfVerify_pk_len vrfHash_len vrfHash_no_panic normal_not_runtime d4EdPriv_panic d5Public_panic d5Seed_panic xX25519_len xX25519_no_panic xX25519Base_len xEdPub_len h2cXmd_len h2cXof_len h2cXmd_no_panic h2cXof_no_panic h2cRO_no_panic h2cNU_no_panic h2cRist_no_panic h2cXmd_small_hash appendMessage_tooLong extractBytes_tooLong newTranscript_tooLong mSeq_ok mSeq_panic mSeq_no_fault rekey_tooLong mRng_ok mRng_no_fault srSigUnmarshal_len srPkUnmarshal_len srSkUnmarshal_len srKpUnmarshal_len srMskUnmarshal_len srSigUnmarshal_spec srPkUnmarshal_spec srSkUnmarshal_spec srKpUnmarshal_spec srMskUnmarshal_spec srSigUnmarshal_err srPkUnmarshal_err srKpUnmarshal_err srSkUnmarshal_err srMskUnmarshal_err srSigNew_len srPkNew_len srSkNew_len srSkEdNew_len srKpNew_len srMskNew_len toL_length commitBytes_ok newSigningContext_ok newTranscriptBytes_ok deriveVerifyChallengeScalar_ok verify_ok pk_unmarshal_compressed sig_unmarshal_r srVerify_total srVerify_bad_len""".split()]
+C07_THMS = ["Voi.Props.C07." + n for n in """step_eq step_eq_core step_eq_zmod swap_schedule_eq swap_schedule_eq_255 mul_eq_rfc mul_eq_rfc_nat
+scalarMult_eq_rfc scalarMult_eq_rfc_32 checked_error_iff checked_eq checked_ok checked_basepoint_error_iff clampScalar_eq_decodeScalar
+clampScalar_lt clampScalar_testBit clampScalar_testBit_32 edPrivToX25519_eq edPublicKeyToX25519_eq dh_symmetric_transfer toZ_add toZ_mul toZ_pow toZ_inv""".split()]
+
 PROPS = {
     "C01": dict(
         level="translation_validation",
@@ -51,11 +56,11 @@ PROPS = {
     ),
     "C02": dict(level="translation_validation", streams=[("K1", 1500)], configs_quick=Q4, configs_thorough=T4, theorems={}),
     "C03": dict(level="translation_validation", streams=[("G1", 1500)], configs_quick=T4, configs_thorough=T4, thorough_mult=4, theorems={}),
-    "C04": dict(level="proof", gens=["go2ir"], streams=[("T0", 6000)], configs_quick=["default", "purego", "force32bit"], configs_thorough=T4,
+    "C04": dict(level="proof", gens=["go2ir"], streams=[("T0", 6000), ("F2", 5000)], configs_quick=["default", "purego", "force32bit"], configs_thorough=T4,
                 theorems={**IR_CORE, **L0_FIELD}),
     "C05": dict(level="proof", gens=["go2ir"], streams=[("S1", 4000), ("T0", 4000)], configs_quick=["default", "force32bit"], configs_thorough=T4,
                 theorems={**IR_CORE, **L0_SCALAR}),
-    "C07": dict(level="translation_validation", streams=[("X1", 2500)], configs_quick=Q4, configs_thorough=T4, theorems={}),
+    "C07": dict(level="proof", streams=[("X1", 2500)], configs_quick=Q4, configs_thorough=T4, theorems={"Voi.Props.C07": C07_THMS}),
     "C09": dict(level="proof", streams=[("B1", 1500), ("C1", 1500)], configs_quick=Q4, configs_thorough=T4, thorough_mult=4,
                 theorems={"Voi.Props.BatchInv": BATCH_THMS, "Voi.Props.CacheInv": CACHE_THMS}),
     "C10": dict(level="translation_validation", streams=[("D1", 3000)], configs_quick=Q4, configs_thorough=T4, theorems={}),
@@ -71,4 +76,6 @@ PROPS = {
                 theorems={"Voi.Props.LRUInv": LRU_THMS, "Voi.Props.LinearizeSound": LIN_THMS}),
     "C17": dict(level="translation_validation", streams=[("R1", 4000)], configs_quick=["default", "force32bit"], configs_thorough=T4, theorems={}),
 }
+PROPS["C19"] = dict(level="proof", streams=[("P1", 26000)], configs_quick=Q4, configs_thorough=T4, thorough_mult=1,
+                    theorems={"Voi.Props.TotalInv": TOTAL_THMS})
 NOT_YET = {}
